@@ -1090,3 +1090,58 @@ func harnessC11world() {
 	w.c.Kill()
 	vDone()
 }
+
+// ---------------------------------------------------------------------------------------------- C19 / C20: concurrent use
+// Two goroutines use one Client at the same time, each performing one of the public operations; all schedules within
+// the reversal bound. Launch at most once; equal results; no panic; no data race inside go-plugin.
+func harnessC19concurrent() {
+	var o wOpts
+	o.grpc = vChoice(2) == 1
+	o.allowed = 1
+	w := wSetup(o)
+	c, p := w.c, w.p
+	var addrs [2]net.Addr
+	var clients [2]ClientProtocol
+	var errs [2]error
+	op := [2]int{vChoice(4), vChoice(4)}
+	done := make(chan struct{}, 2)
+	for g := 0; g < 2; g++ {
+		g := g
+		go func() {
+			switch op[g] {
+			case 0:
+				addrs[g], errs[g] = c.Start()
+			case 1:
+				clients[g], errs[g] = c.Client()
+			case 2:
+				_ = c.Protocol()
+				_ = c.Exited()
+				_ = c.ID()
+				_ = c.ReattachConfig()
+			case 3:
+				c.Kill()
+			}
+			done <- struct{}{}
+		}()
+	}
+	<-done
+	<-done
+	vAssert(p.started <= 1, "C19: the plugin is launched at most once under concurrent use")
+	if op[0] == 0 && op[1] == 0 && errs[0] == nil && errs[1] == nil {
+		vCover("two-starts")
+		vAssert(addrs[0] == addrs[1], "C19: all successful Start calls return the same address")
+	}
+	if op[0] == 1 && op[1] == 1 && errs[0] == nil && errs[1] == nil {
+		vCover("two-clients")
+		vAssert(clients[0] == clients[1], "C19: all successful Client calls return the same protocol client")
+	}
+	c.Kill()
+	vAssert(p.started == 0 || p.isDead, "C19: after Kill the plugin is gone")
+	before := p.started
+	c.Start()
+	if before >= 1 { // a client that never launched anything has nothing to launch "again"
+		vAssert(p.started == before, "C19: after Kill no call launches the plugin again")
+	}
+	vCover("done")
+	vDone()
+}
